@@ -1,4 +1,8 @@
 import Refine.Lemmas.CavityReplace
+import Refine.Lemmas.CavityVisible
+import Refine.Lemmas.CavityGrid
+import Refine.Lemmas.Cavity2D
+import Refine.Lemmas.CavityValid
 import Refine.Lemmas.GeomReal
 import Refine.Props.C15
 
@@ -50,7 +54,7 @@ theorem insertFace_chain {α : Type} {φ : Int → Int → Int → G} (hφ : Alt
     (c c' : Cav) (hinv : SlotsInv c.faces) (h : addTets g c cells = (.ok, c')) (hs : c'.state = .unknown) :
     ∃ new, c'.tetList = c.tetList ++ new ∧
       faceSum φ c'.validFaces = faceSum φ c.validFaces + (new.map (tetBd φ g)).sum := by
-  obtain ⟨new, htl, st, _⟩ := addTets_spec hφ g cells c c' hinv h hs
+  obtain ⟨new, htl, st, _, _⟩ := addTets_spec hφ g cells c c' hinv h hs
   refine ⟨new, htl, ?_⟩
   simp only [Cav.validFaces, Slots.valid, ← rowsSum_eq_faceSum]; exact st.sum
 
@@ -114,7 +118,7 @@ theorem cavity_replace_conforming {α : Type} {φ : Int → Int → Int → G} (
     (hsame : c''.faces = c'.faces ∧ c''.tetList = c'.tetList) (hv : VerifyPassed c'') :
     ((newTets c'').map fun t => faceSum φ (tetFaces t)).sum = (c''.tetList.map (tetBd φ g)).sum := by
   have hnd : ∀ f ∈ c''.validFaces, Nondeg f := by
-    obtain ⟨new, _, _, hmem⟩ := addTets_spec hφ g cells _ c' (emptyCav_inv node) h hs
+    obtain ⟨new, _, _, hmem, _⟩ := addTets_spec hφ g cells _ c' (emptyCav_inv node) h hs
     intro f hf
     have hf' : f ∈ c'.validFaces := by simpa [Cav.validFaces, hsame.1] using hf
     rcases hmem f hf' with h0 | h1
@@ -136,6 +140,175 @@ theorem replace_star_two_sided (c : Cav) (hnd : ∀ f ∈ c.validFaces, Nondeg f
     ∀ d ∈ allSides c.validFaces,
       (allSides c.validFaces).count d = 1 ∧ (allSides c.validFaces).count (rev d) = 1 :=
   verify_two_sided c.validFaces hnd (verifyPassed_loop hv)
+
+/-! ## replace at grid level: the mesh keeps its signed boundary -/
+
+/-- the blank chains of the tet and tri stores are consistent (holds for `Grid.create`, preserved by every
+    modelled operation) -/
+structure GridInv {α : Type} (g : Grid α) : Prop where
+  tets : SlotsInv g.tets.slots
+  tris : SlotsInv g.tris.slots
+
+theorem forall₂_imp_mem {A B : Type} {R S : A → B → Prop} {l1 : List A} {l2 : List B}
+    (h : List.Forall₂ R l1 l2) (himp : ∀ a b, a ∈ l1 → R a b → S a b) : List.Forall₂ S l1 l2 := by
+  induction h with
+  | nil => exact List.Forall₂.nil
+  | cons hab _ ih =>
+    exact List.Forall₂.cons (himp _ _ List.mem_cons_self hab)
+      (ih (fun a b ha => himp a b (List.mem_cons_of_mem _ ha)))
+
+/-- **replace_grid_multiset.**  A successful `ref_cavity_replace` whose listed cells are live turns the live tets
+    into `before − listed + newTets` and the live tris into `before − listed + newTris` (as multisets: `rt`, `rs`
+    are the removed cells, looked up in the grid before the call). -/
+theorem replace_grid_multiset {α : Type} (g g' : Grid α) (c c' : Cav) (hinv : GridInv g)
+    (h : replace g c = (.ok, c', g'))
+    (hlt : ∀ cell ∈ c.tetList, ∃ t, g.tets.get? cell = some t)
+    (hls : ∀ cell ∈ c.triList, ∃ t, g.tris.get? cell = some t) :
+    GridInv g' ∧ ∃ rt rs,
+      List.Forall₂ (fun cell t => g.tets.get? cell = some t) c.tetList rt ∧
+      List.Forall₂ (fun cell t => g.tris.get? cell = some t) c.triList rs ∧
+      (rt ++ g'.tets.valid).Perm (newTets c ++ g.tets.valid) ∧
+      (rs ++ g'.tris.valid).Perm (newTris c ++ g.tris.valid) ∧
+      (∀ cell t, g'.tets.get? cell = some t → g.tets.get? cell = some t ∨ t ∈ newTets c) := by
+  obtain ⟨_, _, _, _, g1, g2, g3, g4, acc1, acc2, h1, h2, h3, h4, et, es⟩ := replace_ok g g' c c' h
+  obtain ⟨i1, p1, o1, _, _, _, k1, b1⟩ := addNewTets_spec g g1 (newTets c) hinv.tets h1
+  obtain ⟨i2, p2, o2, _, _, _, k2, _⟩ := addNewTris_spec g1 g2 (newTris c) (by rw [o1]; exact hinv.tris) h2
+  obtain ⟨i3, ⟨rt, f3, p3⟩, o3, _, _, _, b3⟩ := rmTets_spec g2 g3 [] acc1 c.tetList (by rw [o2]; exact i1) h3
+  obtain ⟨i4, ⟨rs, f4, p4⟩, o4, _, _, _, _⟩ := rmTris_spec g3 g4 acc1 acc2 c.triList (by rw [o3]; exact i2) h4
+  refine ⟨⟨by rw [et, o4]; exact i3, by rw [es]; exact i4⟩, rt, rs, ?_, ?_, ?_, ?_, ?_⟩
+  · refine forall₂_imp_mem f3 ?_
+    intro cell t hc ht
+    obtain ⟨t0, ht0⟩ := hlt cell hc
+    have := k1 cell t0 ht0
+    rw [o2] at ht
+    rw [this] at ht
+    rw [ht0, ht]
+  · refine forall₂_imp_mem f4 ?_
+    intro cell t hc ht
+    obtain ⟨t0, ht0⟩ := hls cell hc
+    have := k2 cell t0 (by rw [o1]; exact ht0)
+    rw [o3] at ht
+    rw [this] at ht
+    rw [ht0, ht]
+  · rw [et, o4]
+    exact p3.symm.trans (by rw [o2]; exact p1)
+  · rw [es]
+    exact p4.symm.trans (by rw [o3]; exact p2.trans (by rw [o1]))
+  · intro cell t ht
+    rw [et, o4] at ht
+    have := b3 cell t ht
+    rw [o2] at this
+    exact b1 cell t this
+
+/-- signed boundary of all live tets of a grid -/
+def tetsBd {α : Type} (φ : Int → Int → Int → G) (g : Grid α) : G :=
+  (g.tets.valid.map fun t => faceSum φ (tetFaces t)).sum
+
+/-- `Σ_tets ∂φ − Σ_tris φ(tri)`: the signed boundary chain of the mesh (tris in the orientation of the tet face
+    they close) -/
+def meshBd {α : Type} (φ : Int → Int → Int → G) (g : Grid α) : G :=
+  tetsBd φ g - (g.tris.valid.map fun t => φ t.n0 t.n1 t.n2).sum
+
+/-- grid invariant carried along a history of cavity operations -/
+structure GridOK {α : Type} (g : Grid α) : Prop where
+  inv : GridInv g
+  nondeg : ∀ cell t, g.tets.get? cell = some t → TetNondeg t
+
+/-- the live faces of a cavity built with `add_tet` on a grid of non-degenerate tets are non-degenerate -/
+theorem cavity_faces_nondeg {α : Type} (g : Grid α) (hg : ∀ cell t, g.tets.get? cell = some t → TetNondeg t)
+    (cells : List Int) (node : Int) (c' : Cav)
+    (h : addTets g (emptyCav node) cells = (.ok, c')) (hs : c'.state = .unknown) :
+    ∀ f ∈ c'.validFaces, Nondeg f := by
+  have hφ : Alt (fun _ _ _ => (0 : Int)) := ⟨fun _ _ _ => rfl, fun _ _ _ => by simp⟩
+  obtain ⟨new, _, _, hmem, _⟩ := addTets_spec hφ g cells _ c' (emptyCav_inv node) h hs
+  intro f hf
+  rcases hmem f hf with h0 | h1
+  · simp [emptyCav, Cav.create, Cav.validFaces, Slots.valid, Slots.create, List.reduceOption] at h0
+  · simp only [cellFaces, List.mem_flatMap] at h1
+    obtain ⟨cell, _, hc⟩ := h1
+    cases hget : g.tets.get? cell with
+    | none => rw [hget] at hc; cases hc
+    | some t => rw [hget] at hc; exact tetFaces_nondeg t (hg cell t hget) f hc
+
+theorem removed_sum {α : Type} (φ : Int → Int → Int → G) (g : Grid α) (cells : List Int) (rt : List Tet)
+    (h : List.Forall₂ (fun cell t => g.tets.get? cell = some t) cells rt) :
+    (rt.map fun t => faceSum φ (tetFaces t)).sum = (cells.map (tetBd φ g)).sum := by
+  induction h with
+  | nil => simp
+  | cons hab _ ih => simp only [List.map_cons, List.sum_cons, ih, tetBd, hab]
+
+/-- one cavity operation on tets: build with `add_tet` from an empty cavity, change nothing but the state
+    (`check_visible`), `replace` succeeds -/
+def CavStep {α : Type} (g g' : Grid α) : Prop :=
+  ∃ cells node c1 c2 c2', addTets g (emptyCav node) cells = (.ok, c1) ∧ c1.state = .unknown ∧
+    c2.faces = c1.faces ∧ c2.tetList = c1.tetList ∧ c2.triList = [] ∧ c2.validSegs = [] ∧
+    replace g c2 = (.ok, c2', g')
+
+/-- **replace_mesh_conforming.**  One cavity operation keeps the signed boundary of the tet group, keeps the
+    tris, and keeps the grid invariant: `∂φ M' = ∂φ M` for every alternating `φ`. -/
+theorem replace_mesh_conforming {α : Type} {φ : Int → Int → Int → G} (hφ : Alt φ) (hd : Diag φ)
+    (g g' : Grid α) (hok : GridOK g) (hstep : CavStep g g') :
+    GridOK g' ∧ tetsBd φ g' = tetsBd φ g ∧ g'.tris.valid.Perm g.tris.valid ∧ meshBd φ g' = meshBd φ g := by
+  obtain ⟨cells, node, c1, c2, c2', hadd, hs, hfaces, htl, htri, hseg, hrep⟩ := hstep
+  obtain ⟨hc2, hvis, hvf, _, _⟩ := replace_ok g g' c2 c2' hrep
+  have hv : VerifyPassed c2 := ⟨hvf, by rw [hvis]; decide⟩
+  have hlisted : ∀ cell ∈ c2.tetList, ∃ t, g.tets.get? cell = some t := by
+    obtain ⟨new, hnew, _, _, hval⟩ := addTets_spec hφ g cells _ c1 (emptyCav_inv node) hadd hs
+    intro cell hc
+    rw [htl, hnew] at hc
+    simp only [emptyCav, Cav.create, List.nil_append] at hc
+    exact hval cell hc
+  obtain ⟨hinv', rt, rs, frt, frs, pt, ps, hback⟩ :=
+    replace_grid_multiset g g' c2 c2' hok.inv hrep hlisted (by rw [htri]; simp)
+  have hnd1 := cavity_faces_nondeg g hok.nondeg cells node c1 hadd hs
+  have hnd2 : ∀ f ∈ c2.validFaces, Nondeg f := by
+    intro f hf; exact hnd1 f (by simpa [Cav.validFaces, hfaces] using hf)
+  have hconf := cavity_replace_conforming hφ hd g hok.nondeg cells node c1 c2 hadd hs ⟨hfaces, htl⟩ hv
+  -- the removed tets are the listed cells
+  have hrt := removed_sum φ g c2.tetList rt frt
+  have hsum := (pt.map fun t => faceSum φ (tetFaces t)).sum_eq
+  simp only [List.map_append, List.sum_append] at hsum
+  have htets : tetsBd φ g' = tetsBd φ g := by
+    unfold tetsBd
+    rw [hrt, ← hconf] at hsum
+    exact add_left_cancel hsum
+  have hrs : rs = [] := by rw [htri] at frs; cases frs; rfl
+  have hnt : newTris c2 = [] := by simp [newTris, hseg]
+  have htris : g'.tris.valid.Perm g.tris.valid := by simpa [hrs, hnt] using ps
+  refine ⟨⟨hinv', ?_⟩, htets, htris, ?_⟩
+  · intro cell t ht
+    rcases hback cell t ht with h0 | h0
+    · exact hok.nondeg cell t h0
+    · simp only [newTets, List.mem_filterMap] at h0
+      obtain ⟨f, hf, hft⟩ := h0
+      unfold newTetOf at hft
+      split at hft
+      · cases hft
+      · next hhas =>
+        simp only [Option.some.injEq] at hft; subst hft
+        obtain ⟨h01, h12, h20⟩ := hnd2 f hf
+        simp only [Face.has, Bool.or_eq_true, beq_iff_eq, not_or] at hhas
+        exact ⟨h01, fun e => h20 e.symm, fun e => hhas.1.1 e.symm, h12, fun e => hhas.1.2 e.symm,
+          fun e => hhas.2 e.symm⟩
+  · unfold meshBd
+    rw [htets, (htris.map fun t => φ t.n0 t.n1 t.n2).sum_eq]
+
+/-- a finite history of cavity operations -/
+inductive CavHistory {α : Type} : Grid α → Grid α → Prop
+  | nil (g : Grid α) : CavHistory g g
+  | cons {g g1 g2 : Grid α} : CavStep g g1 → CavHistory g1 g2 → CavHistory g g2
+
+/-- **cavity_history_conforming.**  Any chain of successful cavity replacements preserves the signed boundary
+    chain of the mesh (and the grid invariant), for every alternating `φ` into every abelian group. -/
+theorem cavity_history_conforming {α : Type} {φ : Int → Int → Int → G} (hφ : Alt φ) (hd : Diag φ)
+    (g g' : Grid α) (hok : GridOK g) (hist : CavHistory g g') :
+    GridOK g' ∧ meshBd φ g' = meshBd φ g ∧ g'.tris.valid.Perm g.tris.valid := by
+  induction hist with
+  | nil g => exact ⟨hok, rfl, List.Perm.refl _⟩
+  | cons hstep _ ih =>
+    obtain ⟨hok1, _, htris1, hm1⟩ := replace_mesh_conforming hφ hd _ _ hok hstep
+    obtain ⟨hok2, hm2, htris2⟩ := ih hok1
+    exact ⟨hok2, hm2.trans hm1, htris2.trans htris1⟩
 
 /-! ## volume -/
 section volume
@@ -193,7 +366,165 @@ theorem newTet_volume (x : Int → V3 ℝ) (node : Int) (f : Face) (t : Tet) (h 
   · cases h
   · simp only [Option.some.injEq] at h; subst h; rfl
 
+/-- **visible_positive.**  If `ref_cavity_check_visible` moved the cavity from `unknown` to `visible`, every tet
+    that `ref_cavity_replace` will create has all four nodes valid and its `ref_node_tet_vol` failed the test
+    `volume <= min_volume` (any scalar type: this is the model function run by the driver at `Float`). -/
+theorem visible_positive {α : Type} [Scalar α] (g : Grid α) (c c' : Cav) (s : Refine.Model.Cavity.St)
+    (h : checkVisible g c = (s, c')) (h0 : c.state = .unknown) (h1 : c'.state = .visible) :
+    ∀ t ∈ newTets c', ∃ v, tetVolAt g t.n0 t.n1 t.n2 t.n3 = some v ∧ (v <=. (minVolume : α)) = false := by
+  obtain ⟨_, hc, hl⟩ := checkVisible_visible g c c' s h h0 h1
+  subst hc
+  intro t ht
+  simp only [newTets, Cav.validFaces, List.mem_filterMap] at ht
+  obtain ⟨f, hf, hft⟩ := ht
+  unfold newTetOf at hft
+  split at hft
+  · cases hft
+  · next hhas =>
+    simp only [Option.some.injEq] at hft; subst hft
+    exact checkVisibleLoop_true g c.node _ hl f hf (by simpa using hhas)
+
+/-- over the reals: the volume of every new tet of a visible cavity is `> 1e-15 > 0` -/
+theorem visible_positive_real (g : Grid ℝ) (c c' : Cav) (s : Refine.Model.Cavity.St)
+    (h : checkVisible g c = (s, c')) (h0 : c.state = .unknown) (h1 : c'.state = .visible) :
+    ∀ t ∈ newTets c', ∃ v, tetVolAt g t.n0 t.n1 t.n2 t.n3 = some v ∧ (1e-15 : ℝ) < v ∧ 0 < v := by
+  intro t ht
+  obtain ⟨v, hv, hle⟩ := visible_positive g c c' s h h0 h1 t ht
+  refine ⟨v, hv, ?_⟩
+  rw [le_false_iff] at hle
+  have hm : (minVolume : ℝ) = 1e-15 := by
+    simp only [minVolume, ofDec_eq]; norm_num
+  rw [hm] at hle
+  exact ⟨hle, lt_trans (by norm_num) hle⟩
+
 end volume
+
+/-! ## the 2-D cavity (tris are the cells, segs the cavity boundary)
+
+`ref_cavity_verify_seg_manifold` only checks that the END node of every live seg is the START of exactly one live
+seg (the segs `(0,9) (1,9) (9,0)` pass, see the example below), so — unlike 3-D — conformity is not derived from the
+verification: it follows from the seg list being the signed boundary of the listed tris (`∂∂ = 0`). -/
+
+/-- `ref_cavity_insert_seg` with an empty `tet_list` (2-D): either the face ids differ and the cavity is flagged
+    `boundary_constrained`, or `Σ_{live segs} ψ` changes by exactly `ψ(s)` (append, or cancellation of the reversed
+    seg). -/
+theorem insertSeg_sum {α : Type} {ψ : Int → Int → G} (hψ : Alt2 ψ) (g : Grid α) (c c' : Cav) (s : Seg)
+    (hinv : SlotsInv c.segs) (htl : c.tetList = []) (h : insertSeg g c s = (.ok, c')) :
+    c'.state = .boundary_constrained ∨
+    (segSum ψ c'.validSegs = segSum ψ c.validSegs + ψ s.n0 s.n1 ∧ SlotsInv c'.segs ∧ c'.state = c.state) := by
+  rcases insertSeg_spec hψ g c c' s hinv htl h with h1 | st
+  · exact Or.inl h1
+  · exact Or.inr ⟨st.sum, st.inv, st.state⟩
+
+/-- **insertSeg_chain.**  After `ref_cavity_add_tri` of any list of tris (status ok, state still unknown) the live
+    segs are the old ones plus the signed boundary of the new part of `tri_list`. -/
+theorem insertSeg_chain {α : Type} {ψ : Int → Int → G} (hψ : Alt2 ψ) (g : Grid α) (cells : List Int) (c c' : Cav)
+    (hinv : SlotsInv c.segs) (htl : c.tetList = []) (h : addTris g c cells = (.ok, c'))
+    (hs : c'.state = .unknown) :
+    ∃ new, c'.triList = c.triList ++ new ∧
+      segSum ψ c'.validSegs = segSum ψ c.validSegs + (new.map (triBdAt ψ g)).sum := by
+  obtain ⟨new, h1, h2, _, _⟩ := addTris_spec hψ g cells c c' hinv htl h hs
+  exact ⟨new, h1, h2⟩
+
+/-- **replace_conforming_2d.**  If the live segs are the signed boundary of `tri_list` for every alternating
+    cochain, the tris `ref_cavity_replace` creates (`seg + node`, attached segs skipped) have the same signed boundary
+    as the tris it removes — for ANY cavity node; the seg verification is not needed. -/
+theorem replace_conforming_2d {α : Type} {ψ : Int → Int → G} (hψ : Alt2 ψ) (g : Grid α) (c : Cav)
+    (hchain : ∀ χ : Int → Int → G, Alt2 χ → segSum χ c.validSegs = (c.triList.map (triBdAt χ g)).sum) :
+    ((newTris c).map (triBd ψ)).sum = (c.triList.map (triBdAt ψ g)).sum :=
+  replace_chain_core_2d hψ g c.segNode c.validSegs c.triList hchain
+
+/-- (a)+(b) in 2-D: cavity built with `add_tri` from an empty cavity, any later change of state / node only -/
+theorem cavity_replace_conforming_2d {α : Type} {ψ : Int → Int → G} (hψ : Alt2 ψ) (g : Grid α)
+    (cells : List Int) (node : Int) (c' c'' : Cav)
+    (h : addTris g (emptyCav node) cells = (.ok, c')) (hs : c'.state = .unknown)
+    (hsame : c''.segs = c'.segs ∧ c''.triList = c'.triList) :
+    ((newTris c'').map (triBd ψ)).sum = (c''.triList.map (triBdAt ψ g)).sum := by
+  apply replace_conforming_2d hψ g c''
+  intro χ hχ
+  obtain ⟨new, h1, h2⟩ := insertSeg_chain hχ g cells _ c' (SlotsInv.create 10) rfl h hs
+  have h0 : segSum χ (emptyCav node).validSegs = 0 := by
+    simp [emptyCav, Cav.create, Cav.validSegs, Slots.valid, Slots.create, segSum, List.reduceOption]
+  have h3 : (emptyCav node).triList = [] := rfl
+  rw [h0, zero_add] at h2
+  rw [h3, List.nil_append] at h1
+  simp only [Cav.validSegs, hsame.1, hsame.2] at h2 ⊢
+  rw [h2, h1]
+
+section area
+open Refine Refine.Model.Geom Refine.ScalarReal
+
+/-- twice the signed area of a 2-D cell: the z component of `ref_node_tri_normal`, the number
+    `ref_node_tri_twod_orientation` tests -/
+noncomputable def area2 (x : Int → V3 ℝ) (t : Tri) : ℝ := (triNormal (x t.n0) (x t.n1) (x t.n2)).z
+
+noncomputable def coneArea (x : Int → V3 ℝ) (p : V3 ℝ) (a b : Int) : ℝ := (triNormal (x a) (x b) p).z
+
+theorem coneArea_alt (x : Int → V3 ℝ) (p : V3 ℝ) : Alt2 (coneArea x p) := by
+  refine ⟨fun a b => ?_, fun a => ?_⟩ <;>
+  · simp only [coneArea, triNormal, cross, V3.sub, sub_eq, mul_eq]; ring
+
+theorem triBd_coneArea (x : Int → V3 ℝ) (p : V3 ℝ) (t : Tri) : triBd (coneArea x p) t = area2 x t := by
+  rw [triBd_eq]
+  simp only [coneArea, area2, triNormal, cross, V3.sub, sub_eq, mul_eq]; ring
+
+/-- **replace_area.**  In 2-D the total signed area of the new tris equals the total signed area of the removed
+    tris exactly (real arithmetic), wherever the cavity node lies. -/
+theorem replace_area {α : Type} (x : Int → V3 ℝ) (g : Grid α) (cells : List Int) (node : Int) (c' c'' : Cav)
+    (h : addTris g (emptyCav node) cells = (.ok, c')) (hs : c'.state = .unknown)
+    (hsame : c''.segs = c'.segs ∧ c''.triList = c'.triList) :
+    ((newTris c'').map (area2 x)).sum =
+      (c''.triList.map fun cell => match g.tris.get? cell with | some t => area2 x t | none => 0).sum := by
+  have p : V3 ℝ := x 0
+  have := cavity_replace_conforming_2d (coneArea_alt x p) g cells node c' c'' h hs hsame
+  have e1 : (newTris c'').map (triBd (coneArea x p)) = (newTris c'').map (area2 x) :=
+    List.map_congr_left (fun t _ => triBd_coneArea x p t)
+  have e2 : c''.triList.map (triBdAt (coneArea x p) g) =
+      c''.triList.map fun cell => match g.tris.get? cell with | some t => area2 x t | none => 0 := by
+    apply List.map_congr_left
+    intro cell _
+    unfold triBdAt
+    cases g.tris.get? cell with
+    | none => rfl
+    | some t => exact triBd_coneArea x p t
+  rw [e1, e2] at this
+  exact this
+
+end area
+
+/-! ## from the validity predicate to chain-level conformity -/
+
+/-- chain-level conformity of a mesh: for every abelian group and every alternating `φ` the signed boundaries of
+    the tets cancel against each other and against the boundary tris (tris carry the orientation of the tet face
+    they close — the convention of refine's meshes, checked on the implementation's output by the stream oracle) -/
+def SignedConforming {α : Type} (m : Mesh3 α) : Prop :=
+  ∀ (G : Type) [AddCommGroup G] (φ : Int → Int → Int → G), Alt φ →
+    (m.tets.map fun t => faceSum φ (tetFaces t)).sum - (m.tris.map fun t => φ t.n0 t.n1 t.n2).sum = 0
+
+/-- the key used by the orientation clause is the unordered face of `valid3Face` -/
+theorem sort3s_key (a b c : Int) : (sort3s a b c).1 = sort3 a b c := by
+  unfold sort3s sort3
+  simp only
+  split_ifs <;> rfl
+
+/-- **Valid3 → SignedConforming**, with the combinatorial orientation clause as an explicit hypothesis:
+    `Valid3` as coded counts unordered faces (two tets, or one tet + one tri); that the two sides see the face with
+    opposite orientation follows from positive volumes only geometrically, so it enters as `valid3Orient m = true`
+    (executable: the signed multiplicity of every unordered face is zero).  `Valid3` itself is not needed for the
+    chain identity — it is what makes the orientation clause mean "exactly two, opposite". -/
+theorem valid3_signedConforming {α : Type} [Refine.Scalar α] (m : Mesh3 α) (_hv : Valid3 m = true)
+    (ho : valid3Orient m = true) : SignedConforming m := by
+  intro G _ φ hφ
+  have h := signedConforming_of_orient hφ m ho
+  have e1 : faceSum φ m.tetFaceList = (m.tets.map fun t => faceSum φ (tetFaces t)).sum := by
+    unfold Mesh3.tetFaceList faceSum
+    induction m.tets with
+    | nil => simp
+    | cons t r ih => simp only [List.flatMap_cons, List.map_append, List.sum_append, List.map_cons, List.sum_cons, ih]
+  have e2 : faceSum φ m.triFaceList = (m.tris.map fun t => φ t.n0 t.n1 t.n2).sum := by
+    unfold Mesh3.triFaceList faceSum
+    rw [List.map_map]; rfl
+  rw [← e1, ← e2]; exact h
 
 /-! ## non-vacuity: the three tets around the edge 0-1 (ring 2,3,4), cavity node 5 (an edge split) -/
 
@@ -231,6 +562,91 @@ example : ∀ cell t, exGrid.tets.get? cell = some t → TetNondeg t := by
   have hm := get?_mem_valid exGrid.tets cell t () h
   have hall : ∀ t ∈ exGrid.tets.valid, TetNondeg t := by decide
   exact hall t hm
+
+instance {β : Type} [DecidableEq β] (s : Slots β) : Decidable (SlotsInv s) :=
+  decidable_of_iff (s.blank.Nodup ∧ ∀ i ∈ s.blank, i < s.rows.length ∧ s.rows.getD i none = none)
+    ⟨fun h => ⟨h.1, h.2⟩, fun h => ⟨h.nodup, h.blank⟩⟩
+
+def exCavVisible : Cav := { exCav with state := .visible }
+
+theorem exGrid_ok : GridOK exGrid := by
+  refine ⟨⟨by decide +kernel, by decide +kernel⟩, ?_⟩
+  intro cell t h
+  have hm := get?_mem_valid exGrid.tets cell t () h
+  have hall : ∀ t ∈ exGrid.tets.valid, TetNondeg t := by decide
+  exact hall t hm
+
+/-- hypotheses of `replace_grid_multiset`, `replace_mesh_conforming`, `cavity_history_conforming`: the edge-split
+    cavity above is replaced successfully (3 tets out, 6 tets in) -/
+example : CavStep exGrid (replace exGrid exCavVisible).2.2 ∧
+    (replace exGrid exCavVisible).2.2.tets.valid.length = 6 := by
+  have h1 : (replace exGrid exCavVisible).1 = .ok := by decide
+  refine ⟨⟨[0, 1, 2], 5, exCav, exCavVisible, (replace exGrid exCavVisible).2.1, by decide, by decide, rfl, rfl,
+    by decide, by decide, ?_⟩, by decide⟩
+  rw [← h1]
+
+example : CavHistory exGrid (replace exGrid exCavVisible).2.2 := by
+  have h1 : (replace exGrid exCavVisible).1 = .ok := by decide
+  refine CavHistory.cons ⟨[0, 1, 2], 5, exCav, exCavVisible, (replace exGrid exCavVisible).2.1, by decide,
+    by decide, rfl, rfl, by decide, by decide, ?_⟩ (CavHistory.nil _)
+  rw [← h1]
+
+/-- 2-D: the four tris around vertex 4 of a 3x3 point grid; cavity node 4 (a collapse-like cavity) and an
+    interior-edge cavity -/
+def exGrid2 : Grid Int :=
+  let g : Grid Int := (List.range 9).foldl (fun g _ => (g.addNode ⟨⟨0, 0, 0⟩, true⟩).1) Grid.create
+  ([⟨0, 1, 4, 1⟩, ⟨1, 2, 4, 1⟩, ⟨2, 5, 4, 1⟩, ⟨5, 0, 4, 1⟩] : List Tri).foldl
+    (fun g t => { g with tris := (g.tris.add t).1 }) g
+
+/-- hypotheses of `insertSeg_chain`, `cavity_replace_conforming_2d`, `replace_area`: 12 segs inserted, 8 cancelled,
+    4 live; 4 new tris from node 7 -/
+example : (addTris exGrid2 (emptyCav 7) [0, 1, 2, 3]).1 = .ok ∧
+    (addTris exGrid2 (emptyCav 7) [0, 1, 2, 3]).2.state = .unknown ∧
+    (addTris exGrid2 (emptyCav 7) [0, 1, 2, 3]).2.validSegs.length = 4 ∧
+    (newTris (addTris exGrid2 (emptyCav 7) [0, 1, 2, 3]).2).length = 4 := by decide
+
+/-- the seg verification is one-directional: an open seg set passes it -/
+example : verifySegsLoop [⟨0, 9, 1⟩, ⟨1, 9, 1⟩, ⟨9, 0, 1⟩] [⟨0, 9, 1⟩, ⟨1, 9, 1⟩, ⟨9, 0, 1⟩] = .pass := by decide
+
+/-- both outcomes of `insertSeg_sum`: cancellation, and a face-id mismatch -/
+example : (insertSeg exGrid2 (addTris exGrid2 (emptyCav 7) [0]).2 ⟨1, 0, 1⟩).2.validSegs.length = 2 ∧
+    (insertSeg exGrid2 (addTris exGrid2 (emptyCav 7) [0]).2 ⟨1, 0, 2⟩).2.state = .boundary_constrained := by decide
+
+/-- two tets glued along the face {0,1,2} with their six boundary tris: the orientation clause holds; it fails when
+    one tri is flipped, and when the second tet is given the same orientation of the shared face -/
+example :
+    valid3Orient (⟨[], [⟨0, 1, 2, 3⟩, ⟨1, 0, 2, 4⟩],
+      [⟨1, 3, 2, 1⟩, ⟨0, 2, 3, 1⟩, ⟨0, 3, 1, 1⟩, ⟨0, 4, 2, 1⟩, ⟨1, 2, 4, 1⟩, ⟨1, 4, 0, 1⟩]⟩ : Mesh3 Int) = true ∧
+    valid3Orient (⟨[], [⟨0, 1, 2, 3⟩, ⟨1, 0, 2, 4⟩],
+      [⟨3, 1, 2, 1⟩, ⟨0, 2, 3, 1⟩, ⟨0, 3, 1, 1⟩, ⟨0, 4, 2, 1⟩, ⟨1, 2, 4, 1⟩, ⟨1, 4, 0, 1⟩]⟩ : Mesh3 Int) = false ∧
+    valid3Orient (⟨[], [⟨0, 1, 2, 3⟩, ⟨0, 1, 2, 4⟩],
+      [⟨1, 3, 2, 1⟩, ⟨0, 2, 3, 1⟩, ⟨0, 3, 1, 1⟩, ⟨1, 4, 2, 1⟩, ⟨0, 2, 4, 1⟩, ⟨0, 4, 1, 1⟩]⟩ : Mesh3 Int) = false := by
+  decide
+
+/-- an integer scalar used only to run `checkVisible` inside `decide` (volumes are `-det/6` with truncating
+    division, `min_volume` rounds to 0) -/
+@[instance_reducible] def intScalar : Refine.Scalar Int :=
+  { add := (· + ·), sub := (· - ·), mul := (· * ·), div := Int.tdiv, neg := (- ·), abs := fun a => a.natAbs,
+    sqrt := id, exp := id, log := id, pow := fun a _ => a, ofInt := id,
+    ofDec := fun m e => if e < 0 then 0 else m * 10 ^ e.toNat,
+    le := fun a b => decide (a ≤ b), lt := fun a b => decide (a < b), isFinite := fun _ => true }
+
+/-- the edge 0-1 along z, ring 2,3,4 around it, node 5 on the edge -/
+def exGridXyz (flip : Bool) : Grid Int :=
+  let pts : List (Refine.Model.Geom.V3 Int) :=
+    [⟨0, 0, 0⟩, ⟨0, 0, 12⟩, ⟨12, 0, 6⟩, ⟨-6, 10, 6⟩, ⟨-6, -10, 6⟩, ⟨0, 0, 6⟩]
+  let g : Grid Int := pts.foldl (fun g p => (g.addNode ⟨p, true⟩).1) Grid.create
+  ((if flip then [⟨0, 1, 3, 2⟩, ⟨0, 1, 4, 3⟩, ⟨0, 1, 2, 4⟩] else [⟨0, 1, 2, 3⟩, ⟨0, 1, 3, 4⟩, ⟨0, 1, 4, 2⟩]) :
+    List Tet).foldl (fun g t => { g with tets := (g.tets.add t).1 }) g
+
+/-- hypotheses of `visible_positive`: the split cavity is visible from the mid-edge node; with the
+    ring orientation reversed (inverted tets) it is `boundary_constrained` -/
+example :
+    (@checkVisible Int intScalar (exGridXyz false) (addTets (exGridXyz false) (emptyCav 5) [0, 1, 2]).2).2.state = .visible ∧
+    (addTets (exGridXyz false) (emptyCav 5) [0, 1, 2]).2.state = .unknown ∧
+    (@checkVisible Int intScalar (exGridXyz true) (addTets (exGridXyz true) (emptyCav 5) [0, 1, 2]).2).2.state =
+      .boundary_constrained := by
+  decide
 
 /-- both outcomes of `insertFace_sum` occur: the reversed face cancels (ok), a rotated copy is `REF_INVALID` -/
 example : (insertFace exCav ⟨4, 3, 0⟩).1 = .ok ∧ (insertFace exCav ⟨4, 3, 0⟩).2.validFaces.length = 5 ∧
